@@ -5,9 +5,9 @@ import A2Verif.Lemmas.FsFatEntryNew
 
 `prepareToWrite_root`: `prepare_to_write` of a root-level path reads the root, builds the map, looks the (upper-case) name
 up and returns the first free slot; the state is untouched.  `put_run`: `put` is refused without any change of the state
-(wrong file system, chunk length, label/directory attribute, invalid name, unreadable directory, duplicate, directory
-full, metadata vectors too short, not enough free clusters), or — all chunks `0 ..< end` being present — runs the cluster
-loop and writes the finished entry back into the slot.
+(wrong file system, chunk length, label/directory attribute, file image with a hole, an oversized chunk or a length beyond
+its chunks, invalid name, unreadable directory, duplicate, directory full, metadata vectors too short, not enough free
+clusters), or runs the cluster loop and writes the finished entry back into the slot.
 -/
 namespace A2Verif.FsFat
 open A2Verif A2Verif.Fs.Fat A2Verif.Read.Fat A2Verif.Read.FatT
@@ -133,16 +133,15 @@ theorem writebackRoot_set {d : Disk} (g : Geo d) {idx : Nat} (hi : idx < (dirOfB
   unfold rootWrite rootSector
   rw [List.set_set]
 
-/-- **the run of `put` of a root-level file**: refused without any change of the state, or — every chunk `0 ..< end` being
-present — the cluster loop runs and the finished entry is written into the first free slot of the root directory -/
+/-- **the run of `put` of a root-level file**: refused without any change of the state, or the cluster loop runs and the finished entry is written into the first free slot of the root directory -/
 theorem put_run {d : Disk} {f : Array Nat} (g : Geo d) (c : Coh d f) {fi : FImg} {now : Stamp} (a : RootArg fi.fullPath)
-    (hs : StampOk now) (hh : ∀ k, k < fi.end → (fi.chunks.lookup k).isSome = true) :
+    (hs : StampOk now) :
     (∃ er, put fi now d = (.error er, d)) ∨
     ∃ B X E1 e0 E2 files e1 entry1 d1 f1 cl,
       NameParts (upper fi.fullPath) B X ∧ dirOfBytes (rootBuf d) = E1 ++ e0 :: E2 ∧
       (∀ x ∈ E1, entryType x ≠ .free ∧ entryType x ≠ .freeAndNoMore) ∧ (entryType e0 = .free ∨ entryType e0 = .freeAndNoMore) ∧
       buildFiles d.labelFiles (dirOfBytes (rootBuf d)) = .ok files ∧ files.lookup (keyOf fi.fullPath) = none ∧
-      fi.dirOrLabel = false ∧ MetaOk fi ∧ fi.chunkLen = d.bpb.blockSize ∧
+      fi.dirOrLabel = false ∧ fi.storable = true ∧ MetaOk fi ∧ fi.chunkLen = d.bpb.blockSize ∧
       fimgToMetadata (entryCreate (stringToFileName (upper fi.fullPath)) 0 now) fi = .ok e1 ∧ e1.length = 32 ∧
       WrOut fi.chunks d f e1 0 0 fi.end entry1 d1 f1 cl ∧
       put fi now d = (.ok (Entry.fileSize (Entry.setAttr entry1 ARCHIVE)), rootWrite d1 E1.length (Entry.setAttr entry1 ARCHIVE)) := by
@@ -166,7 +165,23 @@ theorem put_run {d : Disk} {f : Array Nat} (g : Geo d) (c : Coh d f) {fi : FImg}
     simp only [hacc, if_true, M_fail_apply]
     exact ⟨_, rfl⟩
   have hacc' : fi.dirOrLabel = false := by simpa using hacc
-  simp only [hacc', Bool.false_eq_true, if_false, M_bind_apply, prepareToWrite_root g a]
+  simp only [hacc', Bool.false_eq_true, if_false]
+  by_cases hst0 : ¬ (fi.storable = true)
+  · left
+    have : fi.storable = false := by simpa using hst0
+    simp only [this, Bool.not_false, if_true, M_fail_apply]
+    exact ⟨_, rfl⟩
+  have hst : fi.storable = true := Classical.not_not.mp hst0
+  have hh : ∀ k, k < fi.end → (fi.chunks.lookup k).isSome = true := by
+    have h := hst
+    unfold FImg.storable at h
+    simp only [Bool.and_eq_true, List.all_eq_true, List.mem_range] at h
+    intro k hk
+    have := h.1 k hk
+    cases hl : fi.chunks.lookup k with
+    | none => rw [hl] at this; cases this
+    | some _ => rfl
+  simp only [hst, Bool.not_true, Bool.false_eq_true, if_false, M_bind_apply, prepareToWrite_root g a]
   by_cases hv0 : ¬ (isNameValid (upper fi.fullPath) = true)
   · left
     have : isNameValid (upper fi.fullPath) = false := by simpa using hv0
@@ -225,7 +240,7 @@ theorem put_run {d : Disk} {f : Array Nat} (g : Geo d) (c : Coh d f) {fi : FImg}
         have hwb := writebackRoot_set g1 hlen1 e1 (Entry.setAttr entry1 ARCHIVE)
         rw [hroot1] at hwb
         right
-        refine ⟨B, X, E1, e0, E2, files, e1, entry1, d1, f1, cl, np, hE, hE1, he0, rfl, hl, trivial, hm, hcl', rfl, hl1, o, ?_⟩
+        refine ⟨B, X, E1, e0, E2, files, e1, entry1, d1, f1, cl, np, hE, hE1, he0, rfl, hl, trivial, trivial, hm, hcl', rfl, hl1, o, ?_⟩
         simp only [hrun, hwb, M_pure_apply]
 
 end A2Verif.FsFat
